@@ -547,6 +547,13 @@ def c01_7(c: Ctx) -> None:
             c.fail(w.unit, f'mutates the handler registry ({w.how}): {U(w.node)[:70]}', f'handlers are removed / replaced / re-ordered in {w.unit.qualname}: a registered handler can be skipped for later events', node=w.node)
 
 
+@ob('C01.8', 'MPT', 'a dispatch that returns normally has enqueued the event (same obligation as C14.3): otherwise an "accepted" event is delivered to no handler')
+def c01_8(c: Ctx) -> None:
+    from .c14 import c14_3
+
+    c14_3(c)
+
+
 from .common import await_coro  # noqa: E402
 
 OBLIGATIONS = ob.obs
